@@ -30,6 +30,7 @@ TABLE = {
     "c09_xy_swapped.diff": ("contracts.c09", "_place_user_entity", None),
     "c10_liveness_misses_consumers.diff": ("contracts.c10", "_maybe_mark_dead", None),
     "c16_iteration_scope_leaks.diff": ("contracts.c16", "lower_for_stmt", None),
+    "c11_bundle_constant_scalar_value.diff": ("contracts.c11", "_get_const_value", None),
     "c11_merge_fold_not_wrapped.diff": ("contracts.c11", "_try_fold_wire_merge", None),
     "c16_iterator_leaks_into_outer.diff": ("contracts.c16", "lower_for_stmt", None),
     "c16_le.diff": ("contracts.c16", "get_iteration_values", None),
